@@ -32,6 +32,16 @@ var verifDir = func() string {
 }()
 var harnessDir = filepath.Join(verifDir, "harness")
 
+// repoDir is the tree under verification: $GOSYM_REPO (used for background
+// runs on a snapshot; the harness module's replace directive must point to the
+// same place, ./check takes care of that) or /repo.
+var repoDir = func() string {
+	if d := os.Getenv("GOSYM_REPO"); d != "" {
+		return d
+	}
+	return "/repo"
+}()
+
 // HarnessSpec is one entry of checks.json.
 type HarnessSpec struct {
 	Fn       string         `json:"fn"` // pkgpath.Func
@@ -77,7 +87,7 @@ func goEnv() []string {
 func loadProgram() (*ssa.Program, []*ssa.Package, time.Duration) {
 	start := time.Now()
 	// keep go.sum in step with /repo
-	if b, err := os.ReadFile("/repo/go.sum"); err == nil {
+	if b, err := os.ReadFile(filepath.Join(repoDir, "go.sum")); err == nil {
 		os.WriteFile(filepath.Join(harnessDir, "go.sum"), b, 0644)
 	}
 	cfg := &packages.Config{
@@ -722,7 +732,7 @@ func writeReplay(prop, harness, tier string, seed int64, params map[string]int, 
 	os.MkdirAll(dir, 0755)
 	h := sha1.Sum([]byte(harness + "|" + v.AssertID + "|" + vecString(v.Vector)))
 	path := filepath.Join(dir, fmt.Sprintf("%x.json", h[:8]))
-	tree, _ := exec.Command("git", "-C", "/repo", "rev-parse", "HEAD^{tree}").Output()
+	tree, _ := exec.Command("git", "-C", repoDir, "rev-parse", "HEAD^{tree}").Output()
 	rec := map[string]interface{}{
 		"property": prop, "harness": harness, "tier": tier, "seed": seed, "params": params,
 		"repo_tree": strings.TrimSpace(string(tree)), "assert_id": v.AssertID, "detail": v.Detail,
